@@ -174,6 +174,13 @@ enum XOp {
     Missing { api: Api },
     /// try_open / doctor of m.mv2 while its writer handle holds the lock (only used before the first commit)
     Busy { api: Api },
+    /// a commit that FAILS half-way: the process's file-size limit (RLIMIT_FSIZE, "quota exceeded") is lowered for
+    /// the duration of the call — `tiny`: already the copy into the staging file fails (early `?` return, the
+    /// destructor has to clean up); otherwise the limit sits just above the current size, so the staged
+    /// operation itself fails (`staging.discard()` path)
+    QuotaCommit { tiny: bool },
+    /// the same around dropping and re-opening the handle (the destructor's commit fails, its error is ignored)
+    QuotaReopen,
     /// FAULT INJECTION (outside the property's quantifier): the caller replaces m.mv2 by a directory, the
     /// next commit's rename fails inside AtomicWriteFile::commit
     FaultReplaceByDir,
@@ -194,6 +201,8 @@ impl XOp {
             XOp::FreshRefusedCreate { cand, .. } => format!("fresh-refused-create-{cand}"),
             XOp::Missing { api } => format!("missing-{api:?}"),
             XOp::Busy { api } => format!("busy-{api:?}"),
+            XOp::QuotaCommit { tiny } => format!("quota-commit{}", if *tiny { "-tiny" } else { "" }),
+            XOp::QuotaReopen => "quota-reopen".into(),
             XOp::FaultReplaceByDir => "fault-replace-by-dir".into(),
         }
     }
@@ -265,6 +274,19 @@ fn doctor_req(name: &str, res: &str, rounds: &[Round]) -> String {
     if res == "lock" { return format!("doctor {name} 1 - 0"); }
     let toks: Vec<String> = rounds.iter().map(|r| stage_token(Some(r), true)).collect();
     format!("doctor {name} 0 {} {}", if toks.is_empty() { "-".to_string() } else { toks.join(";") }, (res == "ok") as u8)
+}
+
+/// run `f` with the soft RLIMIT_FSIZE lowered to `limit` bytes (SIGXFSZ is ignored: writes fail with EFBIG)
+fn with_fsize_limit<T>(limit: u64, f: impl FnOnce() -> T) -> T {
+    unsafe {
+        let mut old = libc::rlimit { rlim_cur: 0, rlim_max: 0 };
+        libc::getrlimit(libc::RLIMIT_FSIZE, &mut old);
+        let new = libc::rlimit { rlim_cur: limit, rlim_max: old.rlim_max };
+        libc::setrlimit(libc::RLIMIT_FSIZE, &new);
+        let r = f();
+        libc::setrlimit(libc::RLIMIT_FSIZE, &old);
+        r
+    }
 }
 
 fn file_hash(p: &Path) -> String { std::fs::read(p).map(|b| b3short(&b)).unwrap_or_else(|_| "absent".into()) }
@@ -611,6 +633,46 @@ impl<'d> Run<'d> {
                 out.reqs.push(match api { Api::Doctor => doctor_req(MAIN, &res, &rounds), _ => format!("open {MAIN} 0 lock") });
                 out.real.push(Some(res));
             }
+            XOp::QuotaCommit { tiny } => {
+                if self.world.mem.is_none() { return out; }
+                let before = self.last.clone();
+                let work = before.pending_records > 0 || before.dirty || before.tantivy_dirty;
+                let len = std::fs::metadata(&self.world.path).map(|m| m.len()).unwrap_or(0);
+                let m = self.world.mem.as_mut().unwrap();
+                // tiny: everything up to the end of the WAL region may still be written (the pending-records scan
+                // rewrites the WAL sentinel in place), the copy into the staging file stops there
+                let st = verif_hooks::verif_state(m);
+                let limit = if *tiny { st.hdr_wal_offset + st.hdr_wal_size } else { len + 16 };
+                let r = with_fsize_limit(limit, || m.commit());
+                let ok = r.is_ok();
+                let events = self.take_events();
+                let (rounds, _) = rounds_of(&events, MAIN);
+                if !ok { self.failing_calls += 1; self.tag("commit-failed-quota"); }
+                if work && !ok && matches!(rounds.first(), Some(Round::Mid(_))) { self.tag(if *tiny { "staging-dropped-on-early-return" } else { "staging-discarded-on-op-error" }); }
+                self.last = self.world.observe();
+                if ok { self.committed_once = true; }
+                out.reqs.push(format!("call {MAIN} commit {} {}", work as u8, stage_token(rounds.first(), ok)));
+                out.real.push(Some(if ok { "ok".into() } else { "commit-failed".into() }));
+            }
+            XOp::QuotaReopen => {
+                if self.world.mem.is_none() { return out; }
+                let dirty = self.last.dirty;
+                let len = std::fs::metadata(&self.world.path).map(|m| m.len()).unwrap_or(0);
+                let m = self.world.mem.take().unwrap();
+                with_fsize_limit(len + 16, || drop(m));
+                let events = self.take_events();
+                let (rounds, _) = rounds_of(&events, MAIN);
+                if matches!(rounds.first(), Some(Round::Mid(_))) { self.tag("staging-discarded-in-destructor"); }
+                out.reqs.push(format!("drop {MAIN} {} {}", dirty as u8, if dirty { stage_token(rounds.first(), true) } else { "early".into() }));
+                out.real.push(Some("ok".into()));
+                match Memvid::open(&self.world.path) {
+                    Ok(m) => { self.world.mem = Some(m); self.world.batch = None; }
+                    Err(_) => { out.dead = true; return out; }
+                }
+                self.last = self.world.observe();
+                out.reqs.push(format!("open {MAIN} 0 none"));
+                out.real.push(Some("ok".into()));
+            }
             XOp::FaultReplaceByDir => {
                 let p = self.world.path.clone();
                 let _ = std::fs::remove_file(&p);
@@ -673,6 +735,7 @@ fn gen_xop(rng: &mut Rng, prof: &GenProfile, gs: &mut GenState, run: &Run) -> XO
             }
         }
         96..=97 => XOp::FreshRefusedCreate { cand: rng.usize(0, 7), n: rng.below(1000) as u32 },
+        98 => if rng.chance(1, 3) { XOp::QuotaReopen } else { XOp::QuotaCommit { tiny: rng.bool() } },
         _ => XOp::Missing { api: *rng.pick(&APIS) },
     }
 }
@@ -855,6 +918,8 @@ fn corpus() -> Vec<(String, Vec<XOp>)> {
         XOp::Core(Op::Delete { id: 7 }), XOp::Core(Op::Update(UpdSpec { id: 9, ..Default::default() })),
         XOp::Core(Op::Put(PutSpec { emb: Some(EmbSpec { dim: 3, seed: 1 }), ..PutSpec::simple(PayloadSpec::new(PayloadKind::Ascii, 30, 2), 101) })),
         XOp::Core(Op::Put(PutSpec { emb: Some(EmbSpec { dim: 5, seed: 2 }), ..PutSpec::simple(PayloadSpec::new(PayloadKind::Ascii, 30, 3), 102) })),
+        XOp::QuotaCommit { tiny: true }, XOp::QuotaCommit { tiny: false }, XOp::QuotaReopen,
+        XOp::Core(Op::Put(PutSpec::simple(PayloadSpec::new(PayloadKind::Rand, 900, 11), 102))),
         XOp::Core(Op::Commit),
         XOp::Core(Op::Ticket { seq_no: 5, capacity: Some(4096 + 65536 + 500), issuer: "verif".into() }),
         put(PayloadKind::Rand, 5000, 4, 103), put(PayloadKind::Rand, 5000, 5, 104),
@@ -881,6 +946,7 @@ fn ops_to_json(ops: &[XOp]) -> Value { serde_json::to_value(ops).unwrap() }
 
 fn main() {
     let args = parse_args();
+    unsafe { libc::signal(libc::SIGXFSZ, libc::SIG_IGN); }
     // a private system temp directory: histories live in sub-directories of it, Tantivy's work directories
     // directly in it (so that leftovers can be seen)
     let orig_tmp = std::env::temp_dir();
@@ -898,7 +964,8 @@ fn main() {
     sum.expect_branches(&["staging-committed", "auto-commit", "drop-commit", "crash", "op-vacuum", "op-doctor", "doctor-internal-commit", "second-memory",
         "caller-file", "lock-contention", "missing-path", "refused-Create", "refused-Open", "refused-OpenRo", "refused-Doctor", "refused-TryOpen",
         "refused-create-of-new-memory", "fail-capacity", "fail-dim-mismatch", "fail-not-found", "read-call", "commit-without-work",
-        "contention-Create", "contention-Open", "contention-OpenRo", "fault-injection-rename-fails-temp-leaked"]);
+        "contention-Create", "contention-Open", "contention-OpenRo", "fault-injection-rename-fails-temp-leaked",
+        "staging-dropped-on-early-return", "staging-discarded-on-op-error", "staging-discarded-in-destructor"]);
     let mut drv = if args.driver.as_os_str() == "none" { None } else { Some(Driver::spawn(&args.driver).expect("spawn driver")) };
 
     if args.mode == "replay" {
@@ -929,7 +996,7 @@ fn main() {
     let mut prof = GenProfile::standard(args.thorough);
     prof.w_commit = 12; prof.w_reopen = 7; prof.w_crash = 3; prof.w_vacuum = 4; prof.w_doctor = 3; prof.w_ticket = 3; prof.wrong_dim_percent = 10;
     prof.valid_target_percent = 70;
-    let n_short = args.extra.get("nshort").and_then(|s| s.parse().ok()).unwrap_or(if args.thorough { 60 } else { 5 });
+    let n_short = args.extra.get("nshort").and_then(|s| s.parse().ok()).unwrap_or(if args.thorough { 60 } else { 4 });
     let n_long = args.extra.get("nlong").and_then(|s| s.parse().ok()).unwrap_or(if args.thorough { 3 } else { 0 });
     let known: Vec<String> = args.extra.get("known").map(|s| s.split(',').map(|x| x.to_string()).collect()).unwrap_or_default();
     let _ = &known;
